@@ -247,6 +247,20 @@ def run():
         if not _term.compare(bad):
             raise MachineryError("Term replay does not notice a corrupted behaviour (%s)" % name)
         log.append("Term/%s -> drift noticed" % name)
+    # TermHtml (L2 model of the HTML printer): a model behaviour - with the named deviation - agrees with the real printer
+    hb = {"hist": [{"op": "enter", "chain": [[1, 1], [1, 1]], "ch": ""}, {"op": "write", "chain": [], "ch": "x"},
+                   {"op": "exit", "chain": [], "ch": ""}, {"op": "newline", "chain": [], "ch": ""}],
+          "out": [{"k": "ch", "a": 0, "v": 0, "c": "x"}, {"k": "close", "a": 0, "v": 0, "c": ""}, {"k": "br", "a": 0, "v": 0, "c": ""}],
+          "lost": True}
+    if _term.compare_html(hb):
+        raise MachineryError("TermHtml.tla behaviour does not agree with the real HTMLPrinter: %s" % _term.compare_html(hb))
+    for name, mut in (("span-opened-after-all", lambda b: b["out"].insert(0, {"k": "open", "a": 1, "v": 1, "c": ""})),
+                      ("end-tag-dropped", lambda b: b["out"].pop(1))):
+        bad = copy.deepcopy(hb)
+        mut(bad)
+        if not _term.compare_html(bad):
+            raise MachineryError("TermHtml replay does not notice a corrupted behaviour (%s)" % name)
+        log.append("TermHtml/%s -> drift noticed" % name)
     # Assign
     good = {"table": [[1, 0], [0, 2]], "result": [[1, 2, 0], [2, 1, 0]], "raised": False}
     b1 = {"table": [[1, 0], [0, 2]], "result": [[1, 1, 1], [2, 2, 2]], "raised": False}
